@@ -172,6 +172,14 @@ def run(ctx):
                 "calm/now/mid]) enumerated exhaustively by TLC, replayed on the real executor handlers with real child processes, "
                 "one process per scenario; distinct = distinct plans; non-trivial = at least one request beyond LAUNCH")
 
+    replay_only = None
+    if ctx.replay:
+        # ./check C17 --replay evidence/replays/C17/<file>: run that scenario again on the real code and validate it
+        with open(ctx.replay) as fh:
+            rp = json.load(fh)
+        replay_only = dict(rp["replay"]["scenario"])
+        replay_only.update({"plan": [], "predicted": [], "origin": "replay"})
+
     # 1. exhaustive model checking, per task kind; violations outside the classes of open findings are new
     invs = ["TypeOK", "OneTerminalX", "KilledNotFailedX", "NoSurvivorsX", "ExecutorSurvivesX"]
     # for the shell-script kinds "ignore" behaves like "sleep" (only SIGKILL is ever sent) and exit0 like exit3
@@ -186,7 +194,7 @@ def run(ctx):
     scenarios = []
     predicted_new = []
     sid = 0
-    for (kind, maxreq, behs, reqs) in runs:
+    for (kind, maxreq, behs, reqs) in ([] if replay_only else runs):
         r = ctx.model_check("ExecTaskMC", None, cfg_text=cfg_model(kind, maxreq, dev_stop, invs, behs, reqs),
                             files={"ExecTaskMC.tla": mc_module(known)}, workers=WORKERS, timeout=1500)
         ctx.model_runs[-1]["cfg"] = "%s MaxReq=%d behs=%s reqs=%s" % (kind, maxreq, ",".join(behs or ["all"]), ",".join(reqs or ["all"]))
@@ -196,7 +204,7 @@ def run(ctx):
             scenarios.append(scn_from_counterexample(sid, r.counterexample(), inv))
             predicted_new.append((sid, inv))
     # beyond the listed property (information): can a request handler goroutine block for ever?
-    if not quick:
+    if not quick and not replay_only:
         rs = ctx.model_check("ExecTaskMC", None, cfg_text=cfg_model("ctl", 2, dev_stop, ["NoStuckHandler"], ["sleep"], ["Kill"]),
                              files={"ExecTaskMC.tla": mc_module(known)}, workers=WORKERS, timeout=600)
         if rs.violated:
@@ -205,22 +213,26 @@ def run(ctx):
                                     "not an executor hang; not replayed - nothing observable from outside)")
 
     # 2. scenarios: exhaustive enumeration of the plans by TLC
-    g = ctx.tlc("ExecTaskGen", None, workers=1, cfg_text=cfg_gen(dev_stop), timeout=600)
-    recs = g.records("SCN")
-    if not g.no_error or len(recs) < 100:
-        ctx.save_debug(g, "tlc_gen.txt")
-        raise vlib.Inconclusive("scenario generation failed: %s" % vlib.tail(g.out))
-    ctx.states += g.distinct
-    ctx.transitions += g.generated
-    ctx.model_runs.append({"module": "ExecTaskGen", "cfg": "plans", "distinct": g.distinct, "generated": g.generated,
-                           "result": "%d plans printed" % len(recs), "wall_s": round(g.wall, 1)})
+    recs = []
+    if not replay_only:
+        g = ctx.tlc("ExecTaskGen", None, workers=1, cfg_text=cfg_gen(dev_stop), timeout=600)
+        recs = g.records("SCN")
+        if not g.no_error or len(recs) < 100:
+            ctx.save_debug(g, "tlc_gen.txt")
+            raise vlib.Inconclusive("scenario generation failed: %s" % vlib.tail(g.out))
+        ctx.states += g.distinct
+        ctx.transitions += g.generated
+        ctx.model_runs.append({"module": "ExecTaskGen", "cfg": "plans", "distinct": g.distinct, "generated": g.generated,
+                               "result": "%d plans printed" % len(recs), "wall_s": round(g.wall, 1)})
     sid = 100
     allscn = []
     for rec in recs:
         sid += 1
         allscn.append(scn_from_gen(sid, rec[1]))
     rng = random.Random(ctx.seed)
-    if quick:
+    if replay_only:
+        chosen = [replay_only]
+    elif quick:
         single = [s for s in allscn if len(s["plan"]) <= 1]
         double = [s for s in allscn if len(s["plan"]) == 2]
         rng.shuffle(double)
